@@ -1080,6 +1080,8 @@ pub mod __macro_support {
         // This only happens once (or if the cached interest value was corrupted).
         #[cold]
         pub fn register(&'static self) -> Interest {
+            #[cfg(tokio_rs_tracing_verif)]
+            tracing_core::verif::yield_point("macro_callsite::register::before_cas");
             // Attempt to advance the registration state to `REGISTERING`...
             match self.register.compare_exchange(
                 Self::UNREGISTERED,
@@ -1090,6 +1092,8 @@ pub mod __macro_support {
                 Ok(_) => {
                     // Okay, we advanced the state, try to register the callsite.
                     crate::callsite::register(self.registration);
+                    #[cfg(tokio_rs_tracing_verif)]
+                    tracing_core::verif::yield_point("macro_callsite::register::before_registered");
                     self.register.store(Self::REGISTERED, Ordering::Release);
                 }
                 // Great, the callsite is already registered! Just load its
@@ -1107,6 +1111,8 @@ pub mod __macro_support {
                 }
             }
 
+            #[cfg(tokio_rs_tracing_verif)]
+            tracing_core::verif::yield_point("macro_callsite::register::before_interest_load");
             match self.interest.load(Ordering::Relaxed) {
                 Self::INTEREST_NEVER => Interest::never(),
                 Self::INTEREST_ALWAYS => Interest::always(),
@@ -1125,6 +1131,8 @@ pub mod __macro_support {
         /// without warning.
         #[inline]
         pub fn interest(&'static self) -> Interest {
+            #[cfg(tokio_rs_tracing_verif)]
+            tracing_core::verif::yield_point("macro_callsite::interest::before_load");
             match self.interest.load(Ordering::Relaxed) {
                 Self::INTEREST_NEVER => Interest::never(),
                 Self::INTEREST_SOMETIMES => Interest::sometimes(),
@@ -1134,6 +1142,8 @@ pub mod __macro_support {
         }
 
         pub fn is_enabled(&self, interest: Interest) -> bool {
+            #[cfg(tokio_rs_tracing_verif)]
+            tracing_core::verif::yield_point("macro_callsite::is_enabled");
             interest.is_always()
                 || crate::dispatch::get_default(|default| default.enabled(self.meta))
         }
@@ -1183,6 +1193,8 @@ pub mod __macro_support {
                 _ if interest.is_always() => 2,
                 _ => 1,
             };
+            #[cfg(tokio_rs_tracing_verif)]
+            tracing_core::verif::yield_point("macro_callsite::set_interest::before_store");
             self.interest.store(interest, Ordering::SeqCst);
         }
 
